@@ -8,9 +8,18 @@ C10 — resource limits that are not modelled by another property:
 * `BoundedVecWriter` (same file), the sink of the brotli decompressor in `CAIManifest::from`
   (sdk/src/jumbf/boxes.rs): capacity `max_len` reserved once, every `write` that would pass
   `max_len` is refused.
+* the manifest-store loop of `Store::from_jumbf_impl` around `CAIManifest::from`: one fresh
+  bounded sink (one reservation of the limit) per compressed manifest box.
 * the assertion-count limits: `Store::from_jumbf_impl` refuses a manifest whose assertion store
   has more than `MAX_ASSERTIONS` boxes before looping over them; `Builder::check_assertion_limit`
-  refuses the next `add_assertion` once `MAX_ASSERTIONS` are present.
+  refuses the next `add_assertion` once `MAX_ASSERTIONS` are present (but a definition is loaded
+  without the check); `Claim::add_assertion_impl` refuses the add once the claim holds
+  `MAX_ASSERTIONS`.
+
+Every op of the line protocol below is answered by the real code in the harness
+(harness/src/bin/c10.rs): `tovec`/`svec`/`bvw` through hooks on the functions themselves,
+`stores`/`asserts` by `Store::from_jumbf_with_context` on real manifest stores edited at the byte
+level, `badd`/`bdef` by the public `Builder`, `cadd` by `Claim::add_assertion`.
 
 Integers are Rust integers: `u64`/`usize` (64-bit) with explicit overflow outcomes.
 -/
@@ -34,6 +43,16 @@ def safeVec (itemCnt avail : Nat) : Except Err Nat :=
   if itemCnt > isizeMax then .error .insufficientMemory
   else if itemCnt > avail then .error .insufficientMemory
   else .ok itemCnt
+
+/-- `safe_vec::<T>(item_cnt, init_with)` for an element type with `size_of::<T>() = elemSize`
+(io_utils.rs:195-209): `try_reserve_exact(n)` asks the allocator for `n * elemSize` *bytes*; the
+capacity overflows above `isize::MAX` bytes. With `init_with = Some(_)` (`fill`) the vector is
+then resized to `n` elements (no further allocation: the capacity is there). Returns
+(bytes reserved, resulting length in elements). `safeVec` is the case `elemSize = 1`, no fill. -/
+def safeVecT (elemSize itemCnt avail : Nat) (fill : Bool) : Except Err (Nat × Nat) :=
+  if itemCnt * elemSize > isizeMax then .error .insufficientMemory
+  else if itemCnt * elemSize > avail then .error .insufficientMemory
+  else .ok (itemCnt * elemSize, if fill then itemCnt else 0)
 
 /-- `read_to_vec(data_len)` on a stream of length `len` positioned at `pos` (both ≤ u64::MAX).
 Returns (bytes requested from the allocator, bytes read). -/
@@ -75,6 +94,32 @@ def BVW.run : BVW → List Nat → Except (Err × BVW) BVW
     | .error e => .error (e, w)
     | .ok w' => BVW.run w' rest
 
+/-! ### the manifest-store loop of `Store::from_jumbf_impl` (store.rs:1262-1268) around
+`CAIManifest::from` (boxes.rs:1532-1545)
+
+For every manifest box of the store, in order: a box whose first data box is a `brob` box gets a
+**fresh** `BoundedVecWriter::new(max_manifest_size)` (one reservation of `max_manifest_size`
+bytes *per compressed manifest*), the decompressor output goes through it, a refusal ends the
+whole load with an error; any other box is re-read as is. The writer of one manifest is dropped
+before the next one is looked at, the parsed manifest (about the decompressed size) stays. -/
+inductive StoreIn
+  | plain (size : Nat)            -- uncompressed manifest box of `size` bytes
+  | brob (chunks : List Nat)      -- compressed manifest: the decompressor's output chunks
+  deriving Repr
+
+/-- Returns (number of `max_manifest_size` reservations made, the sizes of the manifests loaded or
+the error). -/
+def loadStores (maxLen avail : Nat) : List StoreIn → Nat → List Nat → Nat × Except Err (List Nat)
+  | [], r, l => (r, .ok l)
+  | .plain s :: rest, r, l => loadStores maxLen avail rest r (l ++ [s])
+  | .brob ch :: rest, r, l =>
+    match BVW.new maxLen avail with
+    | .error e => (r, .error e)
+    | .ok (w, _) =>
+      match w.run ch with
+      | .error (e, _) => (r + 1, .error e)
+      | .ok w' => loadStores maxLen avail rest (r + 1) (l ++ [w'.len])
+
 def MAX_ASSERTIONS : Nat := 100000
 
 /-- `Store::from_jumbf_impl`: the count check in front of the assertion loop. Returns the number
@@ -94,11 +139,33 @@ def builderAdds : Nat → Nat → Nat
     | .ok c => builderAdds c k
     | .error _ => builderAdds count k
 
+/-- `Builder::with_definition` / `Builder::from_json` / `with_archive`: the definition's
+`assertions` list is deserialised as is — **no** `check_assertion_limit` on this path
+(builder.rs: the only caller of `check_assertion_limit` is `add_assertion_impl`). -/
+def builderLoad (n : Nat) : Nat := n
+
+/-- `Claim::add_assertion_impl` (claim.rs:1467): the third limit site — what a `Builder::sign`
+actually puts into the claim goes through this, whatever the definition held. -/
+def claimAdd (count : Nat) : Except Err Nat :=
+  if count ≥ MAX_ASSERTIONS then .error .tooManyAssertions else .ok (count + 1)
+
+/-- `k` adds in a row with `?` (the first refusal ends `Builder::to_claim`). -/
+def claimAdds : Nat → Nat → Except Err Nat
+  | count, 0 => .ok count
+  | count, k + 1 =>
+    match claimAdd count with
+    | .ok c => claimAdds c k
+    | .error e => .error e
+
 /-! ### line protocol
   `tovec pos=<n> len=<n> want=<n>`        → `ok <alloc> <read>` | `err:<kind>`
   `bvw max=<n> writes=<n,n,…|->`          → `ok <len>` | `err <len at refusal>` | `err:<kind>` (new failed)
+  `svec elem=<n> n=<n> fill=<0|1>`        → `ok <bytes reserved> <len>` | `err:<kind>`
+  `stores max=<n> s=<p:size|b:c+c+…>,…`   → `ok <reservations> <manifests loaded>` | `err <reservations>`
   `asserts n=<n>`                         → `ok <iterations>` | `err:<kind>`
   `badd count=<n> k=<n>`                  → `<count after k attempts>`
+  `bdef n=<n>`                            → `<count held after loading a definition with n assertions>`
+  `cadd count=<n> k=<n>`                  → `ok <count>` | `err:<kind>`   (k adds to a claim holding count)
   `e2e … outcome=<class>`                 → `<class>` (echo; see harness/src/bin/c10.rs)
 `avail` is taken as `isize::MAX` (the harness runs with an address-space limit far above its
 requests; an allocator refusal shows as `err:InsufficientMemory` on the implementation side and
@@ -130,6 +197,37 @@ def handle (toks : List String) : String :=
         | .ok w' => "ok " ++ toString w'.len
         | .error (_, w') => "err " ++ toString w'.len
     | none => "bad-req"
+  | "svec" :: rest =>
+    match (field rest "elem").toNat?, (field rest "n").toNat? with
+    | some el, some n =>
+      match safeVecT el n isizeMax (field rest "fill" == "1") with
+      | .ok (b, l) => "ok " ++ toString b ++ " " ++ toString l
+      | .error e => errStr e
+    | _, _ => "bad-req"
+  | "stores" :: rest =>
+    match (field rest "max").toNat? with
+    | some mx =>
+      let parse (t : String) : Option StoreIn :=
+        match t.splitOn ":" with
+        | ["p", n] => n.toNat?.map StoreIn.plain
+        | ["b", cs] => some (StoreIn.brob ((splitList (if cs == "-" then "" else cs) "+").filterMap String.toNat?))
+        | _ => none
+      let ss := (splitList (field rest "s") ",").filterMap parse
+      match loadStores mx isizeMax ss 0 [] with
+      | (r, .ok l) => "ok " ++ toString r ++ " " ++ toString l.length
+      | (r, .error _) => "err " ++ toString r
+    | none => "bad-req"
+  | "bdef" :: rest =>
+    match (field rest "n").toNat? with
+    | some n => toString (builderLoad n)
+    | none => "bad-req"
+  | "cadd" :: rest =>
+    match (field rest "count").toNat?, (field rest "k").toNat? with
+    | some c0, some k =>
+      match claimAdds c0 k with
+      | .ok c => "ok " ++ toString c
+      | .error e => errStr e
+    | _, _ => "bad-req"
   | "asserts" :: rest =>
     match (field rest "n").toNat? with
     | some n =>
